@@ -109,6 +109,9 @@ func gval(o nodes.NodeOutput[string]) string {
 func (d GData) Process() (string, error) {
 	d.G.Hit(d.ID, 0)
 	a := gval(d.A)
+	if a == PanicTrigger {
+		panic("harness processor: input " + a + " crashes this node") // NodeTerms.tla: the caller gets no value
+	}
 	d.G.Hit(d.ID, 1)
 	b := gval(d.B)
 	d.G.Hit(d.ID, 2)
@@ -445,13 +448,19 @@ func runPSCase(h int, cs PSCase) []psLine {
 	fin := make(chan struct{})
 	go func() { wg.Wait(); close(fin) }()
 	// keep the event channel drained while waiting
-	timeout := time.After(10 * time.Second)
+	// once a case of this run has hung, the later ones are given less time (the verdict is already there)
+	limit := 10 * time.Second
+	if hangsSeen.Load() > 0 {
+		limit = time.Second
+	}
+	timeout := time.After(limit)
 	for done := false; !done; {
 		select {
 		case <-fin:
 			done = true
 		case <-g.events:
 		case <-timeout:
+			hangsSeen.Add(1)
 			rec.add(psLine{K: "hang", H: h})
 			done = true
 		}
@@ -462,6 +471,8 @@ func runPSCase(h int, cs PSCase) []psLine {
 	copy(out, rec.lines)
 	return out
 }
+
+var hangsSeen atomic.Int64
 
 // RunParamServer executes cases (ndjson) and writes the histories.
 func RunParamServer(in, out string) error {
@@ -536,6 +547,10 @@ func GenParamServerStress(out string, seed int64, n, clients, ops int) error {
 							v = 13 // makes the processors reading p1 fail
 						case 1:
 							v = 1 // the default value
+						case 2:
+							if p == 1 && r.Intn(2) == 0 {
+								v = 66 // makes the processors reading p1 panic
+							}
 						}
 						prog = append(prog, PSOp{Op: "upd", P: p, V: v})
 					}
